@@ -217,7 +217,12 @@ func fmtVal(v any) string {
 		if x == (val{}) {
 			return "zero"
 		}
+		if !x.ok() {
+			return fmt.Sprintf("TORN{k%d id%d s%d}", x.K, x.ID, x.S)
+		}
 		return fmt.Sprintf("v%d@k%d", x.ID, x.K)
+	case val2:
+		return fmt.Sprintf("val2?{%d,%d,%d}", x.ID, x.S, x.K)
 	default:
 		return fmt.Sprintf("%v", v)
 	}
